@@ -467,7 +467,8 @@ CtorClause(m, ev) ==
 FuzzClause(m, ev) ==
   IF ev.outcome = "timeout" THEN "hang"
   ELSE IF ev.outcome = "other" THEN "non-ValueError-" \o ev.cls
-  ELSE IF ev.outcome = "obj" /\ ev.isq /\ ~ValidTP(m, ev.q) THEN "returned-invalid-time-point"
+  \* (a returned point whose year lies outside the model's range cannot be evaluated and is not judged)
+  ELSE IF ev.outcome = "obj" /\ ev.isq /\ YearInModel(ev.q.y) /\ ~ValidTP(m, ev.q) THEN "returned-invalid-time-point"
   ELSE "ok"
 
 \* ---------------------------------------------------------------------- C10: durations and text
